@@ -248,10 +248,10 @@ open Num
 variable {α : Type} [Num α]
 
 /-- `esl_wei_FitCompleteBinned` (model): a result (no out-of-range bin index) has a status in {eslOK, eslENOHALT, eslERANGE, eslENORESULT},
-    `mu` is the documented location (`xmin`, or the lower bound of bin `imin` for rounded data), and eslOK ⇒ the minimiser's stopping rule held -/
-theorem weiFitBinned_post (h : Hist α) (st : St) (ps : Array α) (hr : weiFitCompleteBinned h = .res st ps) :
+    `mu` is the documented location (`phi` for a tail fit, else `xmin`, or the lower bound of bin `imin` for rounded data), and eslOK ⇒ the minimiser's stopping rule held -/
+theorem weiFitBinned_post (h : Hist α) (tailfit : Bool) (st : St) (ps : Array α) (hr : weiFitCompleteBinned h tailfit = .res st ps) :
     (st = .ok ∨ st = .enohalt ∨ st = .erange ∨ st = .enoresult) ∧ ps.size = 3 ∧
-    ps.getD 0 zero = (if h.isRounded then h.lbound h.imin else h.xmin) := by
+    ps.getD 0 zero = (if tailfit then h.phi else if h.isRounded then h.lbound h.imin else h.xmin) := by
   unfold weiFitCompleteBinned at hr
   split at hr
   · cases hr
